@@ -324,7 +324,7 @@ PROPS['C06'] = _ipc('a hostile sim-process writing arbitrary handshake bytes and
     assumptions=['the hostile peer can only use the channels the handshake gave it'])
 
 PROPS['C16'] = {
-    'parts': [{'harness': 'logthread', 'chunk': 100}],
+    'parts': [{'harness': 'logthread', 'chunk': 100, 'det_chunks_thorough': 20}],
     'quick_s': 40, 'thorough_s': 900,
     'level_quick': 'exploration', 'level_thorough': 'exploration',
     'rule': 'one evaluation = one seeded (plan, schedule, fault) triple executed in a fresh process image: an application task issuing '
